@@ -65,6 +65,11 @@ def relayout(pkg: docgen.Pkg, rng: random.Random) -> docgen.Pkg:
     styles = {}
 
     def kind_of(leaf):
+        low = leaf.lower()
+        if "header" in low:
+            return "header"
+        if "footer" in low:
+            return "footer"
         return "".join(c for c in leaf[:-4] if not c.isdigit())
 
     for name in pkg.parts:
